@@ -8,8 +8,6 @@ E2: every reconfiguration sequence of one loss object of length <= 3 over (data 
 Plus: direct construction (constructor / setters, reference-side model closures), a smooth non-affine model for the
 generic classes (exercises the second Hessian term), and the quara.math.entropy primitives on all small tables.
 """
-import itertools
-
 import numpy as np
 
 from mc import alphabet as A, refmodel as R
@@ -459,7 +457,7 @@ def build_direct(cls, su, data, w, variant):
     return L
 
 
-def run_dataset(out, su, kind, did, data, tier, direct):
+def run_dataset(out, su, kind, did, data, tier, direct, acc):
     """kind 'se' | 're': all classes x modes x routes for one data table"""
     classes = ("se", "fast_se") if kind == "se" else ("re", "fast_re")
     modes = SE_MODES if kind == "se" else RE_MODES
@@ -496,6 +494,8 @@ def run_dataset(out, su, kind, did, data, tier, direct):
             out.count("configured:%s:%s" % (cls, modeclass(mode)))
             kw = {"deep": tier == "thorough"} if kind == "re" else {}
             results[(cls, mode)] = judge(out, su, cls, "configure", mode, "fresh", L, data, expect, ctx, **kw)
+            if results[(cls, mode)]["vals"] is not None:
+                acc.append(results[(cls, mode)]["vals"])
         # sample vs unbiased covariance: the mode changes the weights by exactly the documented factor
         if kind == "se":
             rs = results.get((cls, "inverse_sample_covariance"))
@@ -557,18 +557,20 @@ def ex_e1(p, seed):
     out.count("setup:%s:%s" % (p["typ"], p["flag"]))
     out.count("outcomes:%d" % su.m)
     total = 0
+    acc = []
     for did in p["data"]:
         data = X.dataset(su, did)
         if any((q == 0).any() for _, q in data):
             out.count("tables_with_zero_entries")
-        total += run_dataset(out, su, p["loss"], did, data, p.get("tier", "quick"), direct_for(did, p.get("tier", "quick")))
+        total += run_dataset(out, su, p["loss"], did, data, p.get("tier", "quick"), direct_for(did, p.get("tier", "quick")), acc)
     if p["loss"] == "re":
         g = X.entropy_grid(su)
         out.count("grid_points_skipped_near_clipping", su.grid_skipped)
         if not any(i for _, _, i in g) or all(i for _, _, i in g):
             out.count("grid_without_both_sides")
     inner(out, max(total - 1, 0))
-    out.outcome = "ok" if not out.fails else "fail"
+    out.outcome = "%s:%s" % (p["loss"], "ok" if not out.fails else "fail")
+    out.digest = A.digest(*acc) if acc else ""
     return out
 
 
@@ -637,7 +639,7 @@ def ex_e2(p, seed):
         out.traces += 1
     inner(out, max(nseq - 1, 0))
     out.states = nseq
-    out.outcome = "ok" if not out.fails else "fail"
+    out.outcome = "%s:%s" % (cls, "ok" if not out.fails else "fail")
     return out
 
 
